@@ -172,7 +172,9 @@ class C19(C02):
     families = ["stats_mix", "stats_mix", "commits", "partial", "amend", "merge", "rebase", "cherry_pick", "squash_merge"]
     quick_runs, thorough_runs = 1000, 10000
     quick_budget_s, thorough_budget_s = 170, 1800
-    rule = ("one run = one history family (incl. stats_mix: AI and human edits to ordinary files, to ignored files "
+    rule = ("[stats_mix includes an override-pressure variant: several sessions, one human-tweaked line each, then a small "
+            "unrelated partial commit] "
+            "one run = one history family (incl. stats_mix: AI and human edits to ordinary files, to ignored files "
             "(*.lock, package-lock.json, *.min.js, *.map, *.generated.*) and binary files, several sessions and models); for "
             "EVERY commit created, root and merge commits included, git-ai stats <sha> --json is checked against "
             "git show --numstat (minus ignored files), the independently parsed note intersected with the hunk-aware added "
